@@ -64,39 +64,44 @@ Proof.
 Qed.
 
 (* i = index of a byte known to be non-zero *)
-Lemma hex4_ok : forall i, 0 <= i < L -> exists r, hex4 p i = Ok r /\ (forall cp, r = Some cp -> i + 4 < L).
+Lemma hex4_ok : forall i, 0 <= i < L -> exists r, hex4 p i = Ok r /\ match r with Some _ => i + 4 < L | None => True end.
 Proof.
   intros i R. unfold hex4.
-  destruct (rdp (i + 1)) as [c1 [E1 N1]]; [lia|]. rewrite E1. destruct (jhex c1 <? 0) eqn:H1; [eexists; split; [reflexivity|discriminate]|].
+  destruct (rdp (i + 1)) as [c1 [E1 N1]]; [lia|]. rewrite E1. destruct (jhex c1 <? 0) eqn:H1; [exists None; split; [reflexivity|exact I]|].
   specialize (N1 (jhex_nz c1 H1)).
-  destruct (rdp (i + 2)) as [c2 [E2 N2]]; [lia|]. rewrite E2. destruct (jhex c2 <? 0) eqn:H2; [eexists; split; [reflexivity|discriminate]|].
+  destruct (rdp (i + 2)) as [c2 [E2 N2]]; [lia|]. rewrite E2. destruct (jhex c2 <? 0) eqn:H2; [exists None; split; [reflexivity|exact I]|].
   specialize (N2 (jhex_nz c2 H2)).
-  destruct (rdp (i + 3)) as [c3 [E3 N3]]; [lia|]. rewrite E3. destruct (jhex c3 <? 0) eqn:H3; [eexists; split; [reflexivity|discriminate]|].
+  destruct (rdp (i + 3)) as [c3 [E3 N3]]; [lia|]. rewrite E3. destruct (jhex c3 <? 0) eqn:H3; [exists None; split; [reflexivity|exact I]|].
   specialize (N3 (jhex_nz c3 H3)).
-  destruct (rdp (i + 4)) as [c4 [E4 N4]]; [lia|]. rewrite E4. destruct (jhex c4 <? 0) eqn:H4; [eexists; split; [reflexivity|discriminate]|].
+  destruct (rdp (i + 4)) as [c4 [E4 N4]]; [lia|]. rewrite E4. destruct (jhex c4 <? 0) eqn:H4; [exists None; split; [reflexivity|exact I]|].
   specialize (N4 (jhex_nz c4 H4)).
-  eexists; split; [reflexivity|]. intros; lia.
+  eexists (Some _); split; [reflexivity|]. lia.
+Qed.
+
+Lemma unesc_lo_ok : forall i cp, 0 <= i -> i + 4 < L ->
+  exists r, unesc_lo p i cp = Ok r /\ match r with Some (_, i') => i <= i' /\ i' + 4 < L | None => True end.
+Proof.
+  intros i cp R R4. unfold unesc_lo.
+  destruct (rdp (i + 5)) as [b5 [E5 N5]]; [lia|]. rewrite E5.
+  destruct (b5 =? 92) eqn:B5; cbn [negb]; [|exists None; split; [reflexivity|exact I]].
+  apply Z.eqb_eq in B5. assert (I5 : i + 5 < L) by (apply N5; lia).
+  destruct (rdp (i + 6)) as [b6 [E6 N6]]; [lia|]. rewrite E6.
+  destruct (b6 =? 117) eqn:B6; cbn [negb]; [|exists None; split; [reflexivity|exact I]].
+  apply Z.eqb_eq in B6. assert (I6 : i + 6 < L) by (apply N6; lia).
+  destruct (hex4_ok (i + 6)) as [r2 [H2 Hr2]]; [lia|]. rewrite H2.
+  destruct r2 as [cp2|]; [|exists None; split; [reflexivity|exact I]].
+  destruct (negb (Z.land cp2 64512 =? 56320)); [exists None; split; [reflexivity|exact I]|].
+  eexists (Some (_, i + 6)); split; [reflexivity|]. lia.
 Qed.
 
 Lemma unesc_u_ok : forall i, 0 <= i < L ->
-  exists r, unesc_u p i = Ok r /\ (forall cp i', r = Some (cp, i') -> i <= i' /\ i' + 4 < L).
+  exists r, unesc_u p i = Ok r /\ match r with Some (_, i') => i <= i' /\ i' + 4 < L | None => True end.
 Proof.
   intros i R. unfold unesc_u. destruct (hex4_ok i R) as [r [H Hr]]. rewrite H.
-  destruct r as [cp|]; [|eexists; split; [reflexivity|discriminate]].
-  specialize (Hr cp eq_refl).
+  destruct r as [cp|]; [|exists None; split; [reflexivity|exact I]].
   destruct (Z.land cp 64512 =? 55296).
-  2:{ eexists; split; [reflexivity|]. intros cp' i' X. inversion X; subst. lia. }
-  destruct (rdp (i + 5)) as [b5 [E5 N5]]; [lia|]. rewrite E5.
-  destruct (b5 =? 92) eqn:B5; simpl; [|eexists; split; [reflexivity|discriminate]].
-  apply Z.eqb_eq in B5. assert (I5 : i + 5 < L) by (apply N5; lia).
-  destruct (rdp (i + 6)) as [b6 [E6 N6]]; [lia|]. rewrite E6.
-  destruct (b6 =? 117) eqn:B6; simpl; [|eexists; split; [reflexivity|discriminate]].
-  apply Z.eqb_eq in B6. assert (I6 : i + 6 < L) by (apply N6; lia).
-  destruct (hex4_ok (i + 6)) as [r2 [H2 Hr2]]; [lia|]. rewrite H2.
-  destruct r2 as [cp2|]; [|eexists; split; [reflexivity|discriminate]].
-  specialize (Hr2 cp2 eq_refl).
-  destruct (negb (Z.land cp2 64512 =? 56320)); [eexists; split; [reflexivity|discriminate]|].
-  eexists; split; [reflexivity|]. intros cp' i' X. inversion X; subst. lia.
+  - apply unesc_lo_ok; lia.
+  - exists (Some (cp, i)); split; [reflexivity|]. lia.
 Qed.
 
 Lemma unesc_loop_ok : forall fuel q out dlen i d,
@@ -118,7 +123,7 @@ Proof.
   destruct (e =? 117) eqn:S7; [|apply Plain; lia].
   assert (I1 : i + 1 < L) by (apply N1; intro X; subst e; discriminate).
   destruct (unesc_u_ok (i + 1)) as [r [H Hr]]; [lia|]. rewrite H.
-  destruct r as [[cp i']|]; [|eauto]. destruct (Hr cp i' eq_refl) as [I2 I3].
+  destruct r as [[cp i']|]; [|eauto]. destruct Hr as [I2 I3].
   destruct (negb (cp_valid cp)); [eauto|].
   destruct (put_list_ok (utf8_enc cp) out dlen d D OL) as [o [P OL']]. rewrite P.
   apply IH; lia.
